@@ -289,6 +289,7 @@ class Exec:
             if obj._lazy and attr in obj._ftypes:
                 v = self.mk(obj._ftypes[attr], f"{obj._nm}.{attr}")
                 obj._fields[attr] = v
+                self._snapshot_entry(obj, attr, v)
                 return v
             # method / property?
             for c in obj._cls_set:
@@ -303,6 +304,7 @@ class Exec:
             if obj._lazy and attr in obj._ftypes:
                 v = self.mk(obj._ftypes[attr], f"{obj._nm}.{attr}")
                 obj._fields[attr] = v
+                self._snapshot_entry(obj, attr, v)
                 return v
             # class attribute constants
             for c in obj._cls_set:
@@ -331,6 +333,7 @@ class Exec:
                 t = known[0]
             v = self.mk(t, f"{obj._nm}.{attr}")
             obj._fields[attr] = v
+            self._snapshot_entry(obj, attr, v)
             return v
         if isinstance(obj, ClassRef):
             m = source.find_method(obj.name, attr)
@@ -732,7 +735,9 @@ class Exec:
         if isinstance(container, ADict):
             return z3.Select(container.present, lift(item))
         if isinstance(container, OMap):
-            return z3.Bool(fresh_name(container.name + "#has"))
+            b = z3.Bool(fresh_name(container.name + "#has"))
+            container.tests.append((item, b))
+            return b
         if isinstance(container, ASet):
             return z3.Select(container.member, lift(item))
         if isinstance(container, str) and isinstance(item, str):
@@ -846,7 +851,27 @@ class Exec:
         idx = self.eval(node.slice, env)
         return self.getitem(base, idx)
 
+    def _snapshot_entry(self, obj, attr, v):
+        """A lazily created field is an INPUT value: remember containers as they were at entry, because the
+        code under verification mutates them in place (a.old.<obj>.<field> must not see those updates)."""
+        if isinstance(v, (AList, ADict, ASet)):
+            obj.__dict__.setdefault("_entry", {})[attr] = v.copy()
+
     def getitem(self, base, idx):
+        if isinstance(base, OMap):
+            has = None
+            for k, b in reversed(base.tests):  # a membership test of the same key term decides presence
+                if k is idx or (is_z3(k) and is_z3(idx) and k.eq(idx)) or (not is_z3(k) and not is_z3(idx) and not isinstance(k, SObj) and k == idx):
+                    has = b
+                    break
+            if has is None:
+                has = z3.Bool(fresh_name(base.name + "#has"))
+                base.tests.append((idx, has))
+            if not self.branch(has, label="key-present"):
+                raise PyRaise("KeyError")
+            r = self.mk(base.val_type, fresh_name(base.name + "[]"), register=True)
+            base.lookups.append((idx, r))
+            return r
         if isinstance(base, (list, tuple, str)):
             if is_z3(idx):
                 if isinstance(base, str):
